@@ -113,6 +113,10 @@ SCENARIOS = {
         "insert into {t1} ({a}) values (2)",
         "rollback",
         "select count(*) from {t1}",
+        "alter table {t1} set tag {tg} = 'v1'",
+        "alter table {t1} modify column {a} set tag {tg} = 'v2'",
+        "alter table {t1} modify column {a} unset tag {tg}",
+        "create tag {tg2}",
         "create sequence {seq1}",
         "select {seq1}.nextval",
     ],
